@@ -25,6 +25,8 @@ func cloneProg(p *Program) *Program {
 	q := *p
 	q.Snap = append([][2]string{}, p.Snap...)
 	q.Ops = append([]Op{}, p.Ops...)
+	q.D = append([][2]string{}, p.D...)
+	q.S = append([][2]string{}, p.S...)
 	return &q
 }
 
@@ -44,6 +46,28 @@ func minimise(p *Program, wantFired *bool) *Program {
 		for i := len(cur.Ops) - 1; i >= 0; i-- {
 			c := cloneProg(cur)
 			c.Ops = append(c.Ops[:i:i], cur.Ops[i+1:]...)
+			if f, _ := fails(c, wantFired); f != nil {
+				cur = c
+				changed = true
+			}
+		}
+		for i := len(cur.D) - 1; i >= 0; i-- {
+			c := cloneProg(cur)
+			c.D = append(c.D[:i:i], cur.D[i+1:]...)
+			if c.FailD > len(c.D) {
+				c.FailD = len(c.D)
+			}
+			if f, _ := fails(c, wantFired); f != nil {
+				cur = c
+				changed = true
+			}
+		}
+		for i := len(cur.S) - 1; i >= 0; i-- {
+			c := cloneProg(cur)
+			c.S = append(c.S[:i:i], cur.S[i+1:]...)
+			if c.FailS > len(c.S) {
+				c.FailS = len(c.S)
+			}
 			if f, _ := fails(c, wantFired); f != nil {
 				cur = c
 				changed = true
